@@ -811,6 +811,7 @@ func (h *serialHarness) runConcurrentParse(t *testing.T, c *SerialCase, img []by
 			rt.Client(fmt.Sprintf("p%d", ti), func() {
 				for _, idx := range calls[ti] {
 					sim.Point(-50)
+					sim.PreemptSoon(60) // one switch somewhere inside this call, wherever: faults belong inside operations
 					seen = append(seen, obs{ti, idx, parseOutcome(items[idx].kind, items[idx].text)})
 				}
 			})
